@@ -15,6 +15,8 @@ type Env struct {
 	pkg    *types.Package
 	names  map[string]Val
 	lookup func(name string) (Val, bool)
+	// oldLookup resolves names inside old(...): parameters at their entry values
+	oldLookup func(name string) (Val, bool)
 	st     *State
 	old    *State
 	bound  map[string]Val
@@ -89,10 +91,46 @@ func (env *Env) parseType(s string) types.Type {
 		if err == nil && tv.Type != nil {
 			return tv.Type
 		}
+		// prefix (*, []) + imported package qualified name
+		prefix := ""
+		rest := s
+		for strings.HasPrefix(rest, "*") || strings.HasPrefix(rest, "[]") {
+			if strings.HasPrefix(rest, "*") {
+				prefix += "*"
+				rest = rest[1:]
+			} else {
+				prefix += "[]"
+				rest = rest[2:]
+			}
+		}
+		if i := strings.Index(rest, "."); i > 0 {
+			for _, imp := range env.pkg.Imports() {
+				if imp.Name() == rest[:i] || strings.HasSuffix(imp.Path(), "/"+rest[:i]) {
+					if o := imp.Scope().Lookup(rest[i+1:]); o != nil {
+						if tn, ok := o.(*types.TypeName); ok {
+							var t types.Type = tn.Type()
+							for j := len(prefix); j > 0; {
+								if strings.HasSuffix(prefix[:j], "[]") {
+									t = types.NewSlice(t)
+									j -= 2
+								} else {
+									t = types.NewPointer(t)
+									j--
+								}
+							}
+							return t
+						}
+					}
+				}
+			}
+		}
 	}
 	tv, err := types.Eval(token.NewFileSet(), nil, token.NoPos, s)
 	if err == nil && tv.Type != nil {
 		return tv.Type
+	}
+	if t := env.e.globalType(s); t != nil {
+		return t
 	}
 	sfail("cannot resolve type %q", s)
 	return nil
@@ -606,6 +644,9 @@ func (env *Env) call(x *Expr) Val {
 		}
 		n := *env
 		n.st = env.old
+		if env.oldLookup != nil {
+			n.lookup = env.oldLookup
+		}
 		return n.tr(x.Args[0])
 	case "len":
 		a := env.tr(x.Args[0])
@@ -682,6 +723,13 @@ func (env *Env) call(x *Expr) Val {
 			sfail("addr(): field %s not found directly", ax.Name)
 		}
 		return Val{T: e.fa(e.structKey(p.Elem()), f.Name(), base.T), Ty: types.NewPointer(f.Type())}
+	case "deref":
+		a := env.tr(x.Args[0])
+		p, ok := a.Ty.Underlying().(*types.Pointer)
+		if !ok {
+			sfail("deref of non-pointer")
+		}
+		return Val{T: e.loadAt(env.st, a.T, a.Src, p.Elem()), Ty: p.Elem()}
 	case "dyntype":
 		a := env.tr(x.Args[0])
 		return Val{T: "(dyntype " + a.T + ")", Ty: mathInt}
@@ -963,4 +1011,61 @@ func (e *Engine) noteIndexTerm(t string) {
 	for _, f := range e.qfacts {
 		e.instantiate(f, t)
 	}
+}
+
+// resolve "[*|[]]pkg.Type" or "[*|[]]full/import/path.Type" against every package known to the loader
+func (e *Engine) globalType(s string) types.Type {
+	prefix := ""
+	rest := s
+	for strings.HasPrefix(rest, "*") || strings.HasPrefix(rest, "[]") {
+		if strings.HasPrefix(rest, "*") {
+			prefix += "*"
+			rest = rest[1:]
+		} else {
+			prefix += "[]"
+			rest = rest[2:]
+		}
+	}
+	i := strings.LastIndex(rest, ".")
+	if i <= 0 {
+		return nil
+	}
+	pk, name := rest[:i], rest[i+1:]
+	seen := map[*types.Package]bool{}
+	var found types.Type
+	var visit func(p *types.Package, depth int)
+	visit = func(p *types.Package, depth int) {
+		if p == nil || seen[p] || found != nil || depth > 4 {
+			return
+		}
+		seen[p] = true
+		if p.Path() == pk || p.Name() == pk || strings.HasSuffix(p.Path(), "/"+pk) {
+			if o := p.Scope().Lookup(name); o != nil {
+				if tn, ok := o.(*types.TypeName); ok {
+					found = tn.Type()
+					return
+				}
+			}
+		}
+		for _, imp := range p.Imports() {
+			visit(imp, depth+1)
+		}
+	}
+	for _, p := range e.pkgs {
+		visit(p.Types, 0)
+	}
+	if found == nil {
+		return nil
+	}
+	t := found
+	for j := len(prefix); j > 0; {
+		if strings.HasSuffix(prefix[:j], "[]") {
+			t = types.NewSlice(t)
+			j -= 2
+		} else {
+			t = types.NewPointer(t)
+			j--
+		}
+	}
+	return t
 }
